@@ -206,13 +206,27 @@ pub fn handle(s: &mut Session, rest: &str) -> String {
             new_handle(s, l)
         }
         "bigiter" => {
+            // bigiter <n> [<stack KiB>]: collect n integers into a list through FromIterator, measure it, sum it through a typed
+            // iterator, copy it; with a second argument the whole thing runs on a thread with that much stack (collecting is
+            // quadratic in the real code, so the list is kept short and the stack small instead)
             let n: i64 = a1.trim().parse().unwrap_or(0);
-            let l: TulispObject = (0..n).map(TulispObject::from).collect();
-            let len = l.base_iter().count();
-            let sum: i64 = l.iter::<i64>().map(|x| x.unwrap_or(0)).sum();
-            let last = lists::last(&l, None).and_then(|x| x.car()).map(|x| x.to_string()).unwrap_or_else(|_| "ERR".into());
-            let copy_len = l.deep_copy().map(|c| c.base_iter().count()).unwrap_or(0);
-            format!("BIG {} {} {} {}", len, sum, last, copy_len)
+            let work = move || {
+                let l: TulispObject = (0..n).map(TulispObject::from).collect();
+                let len = l.base_iter().count();
+                let sum: i64 = l.iter::<i64>().map(|x| x.unwrap_or(0)).sum();
+                let last = lists::last(&l, None).and_then(|x| x.car()).map(|x| x.to_string()).unwrap_or_else(|_| "ERR".into());
+                let copy_len = l.deep_copy().map(|c| c.base_iter().count()).unwrap_or(0);
+                format!("BIG {} {} {} {}", len, sum, last, copy_len)
+            };
+            match a2.trim().parse::<usize>() {
+                Ok(kib) => std::thread::Builder::new()
+                    .stack_size(kib * 1024)
+                    .spawn(work)
+                    .ok()
+                    .and_then(|h| h.join().ok())
+                    .unwrap_or_else(|| "ERR thread".to_string()),
+                Err(_) => work(),
+            }
         }
         "fromiter" => {
             let both = format!("{} {}", a1, a2);
